@@ -298,7 +298,7 @@ Qed.
 
 Lemma at_shape : forall (D : sdiagram) se, NoDup (map sid_of (sd_shapes D)) -> In se (sd_shapes D) ->
   get_model_element (cmelem_rows (tree_of D)) (elem_id (snd se)) = Some (velem_of (melem_of_welem (welem_of (snd se))))
-  /\ struct_of (tree_of D) (velem_of (melem_of_welem (welem_of (snd se)))) = Some (top_pv (we_node (welem_of (snd se)))).
+  /\ struct_of (tree_of D) (velem_of (melem_of_welem (welem_of (snd se)))) = Some (top_pv_c (we_node (welem_of (snd se)))).
 Proof.
   intros D se Hnd Hin. pose proof (sl_find_unique _ sid_of _ se Hnd Hin) as F. split.
   - rewrite g_find. change (elem_id (snd se)) with (sid_of se). rewrite F. reflexivity.
@@ -306,6 +306,30 @@ Proof.
     change (ve_id (velem_of (melem_of_welem (welem_of (snd se))))) with (node_id (we_node (welem_of (snd se)))).
     rewrite node_id_welem. rewrite find_drawn. change (elem_id (snd se)) with (sid_of se). rewrite F. reflexivity.
 Qed.
+
+(* the header of a class / package / inheritance row holds no colon: top_pv_c is top_pv there *)
+Lemma sl_txt_textok : forall s, txt s = true -> textok s = true.
+Proof.
+  intros s H. unfold txt in H. apply andb_true_iff in H. destruct H as [H _]. apply andb_true_iff in H. destruct H as [H _].
+  apply andb_true_iff in H. destruct H as [H H3]. apply andb_true_iff in H. destruct H as [H1 H2].
+  unfold textok. rewrite H1, H2, H3. reflexivity.
+Qed.
+
+Lemma sl_headok : forall id nm ty, ident id = true ->
+  match nm with Some s => txt s && no_char ":" s | None => true end = true -> ident ty = true -> headok id nm ty = true.
+Proof.
+  intros id nm ty Hi Hn Ht. unfold ident in Hi, Ht.
+  apply andb_true_iff in Hi. destruct Hi as [Hi I3]. apply andb_true_iff in Hi. destruct Hi as [I1 I2].
+  apply andb_true_iff in Ht. destruct Ht as [Ht T3]. apply andb_true_iff in Ht. destruct Ht as [T1 T2].
+  unfold headok. rewrite (sl_txt_textok _ I1), I2, I3, (sl_txt_textok _ T1), T2, T3.
+  destruct nm as [s|]; [|reflexivity]. apply andb_true_iff in Hn. destruct Hn as [N1 N2].
+  rewrite (sl_txt_textok _ N1), N2. reflexivity.
+Qed.
+
+Lemma sl_top_plain : forall id nm ty its tl, ident id = true ->
+  match nm with Some s => txt s && no_char ":" s | None => true end = true -> ident ty = true ->
+  top_pv_c (WNode id nm ty its tl) = top_pv (WNode id nm ty its tl).
+Proof. intros id nm ty its tl Hi Hn Ht. apply top_pv_c_plain. apply sl_headok; assumption. Qed.
 
 (* ---------------------------------------------------------------- the type dispatch of LoadAndTest *)
 
@@ -420,12 +444,28 @@ Proof.
   clear Ev. unfold step. destruct (snd se) as [c|p|i|x|id nm ty par noise].
   - change (node_type (we_node (welem_of (EClass c)))) with "Class" in Hty.
     change (we_node (welem_of (EClass c))) with (tree_of_class c) in HP. cbn [elem_id] in *. cbn [elem_name] in Hnm.
+    assert (Hpl : top_pv_c (tree_of_class c) = top_pv (tree_of_class c)).
+    { pose proof Hsh as Hc. unfold class_ok in Hc. do 4 (apply andb_true_iff in Hc; destruct Hc as [Hc _]).
+      apply andb_true_iff in Hc. destruct Hc as [Hc C3]. apply andb_true_iff in Hc. destruct Hc as [C1 C2].
+      unfold tree_of_class. apply sl_top_plain; [exact C1 | rewrite C2, C3; reflexivity | reflexivity]. }
+    rewrite Hpl in HP.
     rewrite (load_elem_class _ _ d e _ v (rclass0 D c) Hm Hg Hty (GC D _ _ v c Hgn Hsh HP Hid Hnm)). rewrite Hid. reflexivity.
   - change (node_type (we_node (welem_of (EPackage p)))) with "Package" in Hty.
     change (we_node (welem_of (EPackage p))) with (tree_of_package p) in HP. cbn [elem_id] in *. cbn [elem_name] in Hnm.
+    assert (Hpl : top_pv_c (tree_of_package p) = top_pv (tree_of_package p)).
+    { pose proof Hsh as Hc. unfold package_ok in Hc. do 2 (apply andb_true_iff in Hc; destruct Hc as [Hc _]).
+      apply andb_true_iff in Hc. destruct Hc as [C1 C2].
+      unfold tree_of_package. apply sl_top_plain; [exact C1 | | reflexivity].
+      unfold ident in C2. apply andb_true_iff in C2. destruct C2 as [C2 _].
+      apply andb_true_iff in C2. destruct C2 as [C2 C3]. rewrite C2, C3. reflexivity. }
+    rewrite Hpl in HP.
     rewrite (load_elem_package _ _ d e _ v (rpackage_of p) Hm Hg Hty (GP D _ v p Hsh HP Hid Hnm)). rewrite Hid. reflexivity.
   - change (node_type (we_node (welem_of (EInh i)))) with (if si_real i then "Realization" else "Generalization") in Hty.
     change (we_node (welem_of (EInh i))) with (tree_of_inh i) in HP. cbn [elem_id] in *.
+    assert (Hpl : top_pv_c (tree_of_inh i) = top_pv (tree_of_inh i)).
+    { pose proof Hsh as Hc. unfold inh_ok in Hc. do 5 (apply andb_true_iff in Hc; destruct Hc as [Hc _]).
+      unfold tree_of_inh. apply sl_top_plain; [exact Hc | reflexivity | destruct (si_real i); reflexivity]. }
+    rewrite Hpl in HP.
     rewrite (load_elem_inh _ _ d e _ v (si_real i) (rinh0 D i (si_real i)) Hm Hg Hty (GI D _ _ v i (si_real i) Hgn Hsh HP Hid)).
     rewrite Hid. reflexivity.
   - change (node_type (we_node (welem_of (EAssoc x)))) with "Association" in Hty.
